@@ -351,7 +351,7 @@ func c20Run(c c20Case, st *fw.Stats) []fw.Viol {
 				}
 			}
 		}
-		carriers := []string{"none", "header", "query", "body", "header+query-agree", "header+body-disagree"}
+		carriers := []string{"none", "header", "query", "body", "header+query-agree", "header+body-disagree", "header+malformed-query", "header+malformed-body", "query+malformed-body"}
 		for _, v := range values {
 			for ci, carrier := range append(append([]string{}, carriers...), carriers...) {
 				st.Evals++
@@ -398,6 +398,16 @@ func c20Run(c c20Case, st *fw.Stats) []fw.Viol {
 				}
 				if carrier == "header+body-disagree" {
 					body = "_method=" + other
+				}
+				// an unrelated malformed pair next to the carrier (a bad percent escape): what did parse still counts
+				if carrier == "header+malformed-query" {
+					target += "?x=%zz&y=1"
+				}
+				if carrier == "header+malformed-body" {
+					body = "x=%zz&y=1"
+				}
+				if carrier == "query+malformed-body" {
+					body = "x=%zz"
 				}
 				req := httptest.NewRequest(c.Method, target, strings.NewReader(body))
 				if body != "" {
@@ -560,7 +570,7 @@ var c20Spec = fw.Spec[c20Case]{
 	ID:    "C20",
 	Level: "model_checking",
 	Rule: "complete decision tables: HTTPBasicAuth: 6 account maps (nil, empty, one user, empty password, two users, password containing ':') x 27 Authorization values (incl. the full square of known / unknown / empty users x matching / other / empty passwords) (absent, valid, wrong password, unknown user, empty user / password, no colon, bare scheme, bad base64, scheme in other case, other scheme, double space, padding, leading space, case-changed user, empty) x 21 placements (right after a request whose first handler panicked without a hook (the caller recovered); on a Route value attached inside a group and given the gate afterwards with Route.Use; per-action middleware of a resource's two-method Update action, asked with PUT and with PATCH; first handler of a custom NotFound chain on a router without global middleware that served unmatched and matched requests before; two stacked gates with different account lists are among them; a global gate installed after the route served its first request; the gated route reached through another route's middleware that re-dispatches with HandleContext; behind a middleware that has already written body bytes; two gates registered from one call site with Router.Use, globally and inside a group; route, global, group middleware; global gate in front of the not-allowed and of the not-found handlers; a dynamic route on a caching router, first request and repeat after a valid one filled the cache; route-level gate of the first of several sibling routes inside nested groups / inside a group with three Use calls, with two and with exactly one route-level middleware per sibling); " +
-		"HTTPMethodOverrideHandler: 10 request methods x 13 override values x 6 carriers (none, header, query, body, header+query agreeing, header+body disagreeing - the last for totality only) x {a plain net/http handler downstream, a rux router whose handler sits behind handlers.Timeout and a wrapped net/http handler}; WrapHTTPHandlers: lists of 1..4 distinguishable wrappers (+ the override gate in the list); WrapHTTPHandler / WrapHTTPHandlerFunc and their four aliases at every subset of positions of chains n<=4; every row is non-trivial",
+		"HTTPMethodOverrideHandler: 10 request methods x 13 override values x 9 carriers (none, header, query, body, header+query agreeing, header+body disagreeing - for totality only -, and a carrier next to an unrelated malformed query / body pair) x {a plain net/http handler downstream, a rux router whose handler sits behind handlers.Timeout and a wrapped net/http handler}; WrapHTTPHandlers: lists of 1..4 distinguishable wrappers (+ the override gate in the list); WrapHTTPHandler / WrapHTTPHandlerFunc and their four aliases at every subset of positions of chains n<=4; every row is non-trivial",
 	Assume: []string{"'well-formed Basic credentials' = scheme Basic (any case), one space, valid base64, a colon in the decoded text", "when both override carriers disagree the statement does not say which wins; those rows are executed but not asserted"},
 	Bounds: func(tier string) map[string]any {
 		return map[string]any{"accounts": len(c20Accounts), "authorization_values": len(c20Auth), "wrapper_lists": "1..4", "chains": "n<=4, all subsets of wrapped positions"}
